@@ -7,6 +7,9 @@ def run(ctx):
     T = [('tree.d1.h5.n3', D(1, 5, 3, 1), [-4, -1, 0, -1, 0, 0], 120, 'every index -1..2^level of every level'),
          ('tree.d2.h3.n3', D(2, 3, 3, 1), [-4, -1, 0, -1, 0, 0], 200, ''),
          ('tree.d3.h3.n2', D(3, 3, 2, 1), [-3, -1, 0, -1, 0, 0], 300, 'indices -1..64 at the leaf level: gaps between groups, inside a group range but absent, below first, above last')]
+    T += [('tree.deep.d3.h12.n2', D(3, 12, 2, 3), [-2, -1, 1, -1, 0, 0], 240, 'deep sparse tree (33-bit indices): queries = every existing cell, its index neighbours, -1, 0, upper bound'),
+          ('tree.deep.d2.h18.n3', D(2, 18, 3, 3), [1, 0, 1, -1, 0, 0], 240, '34-bit indices'),
+          ('tree.deep.d3.h21.n2', D(3, 21, 2, 3), [-2, -1, 1, -1, 0, 0], 240, 'the largest Dim-3 height whose indices fit 62 bits')]
     if not q:
         T += [('tree.d1.h7.n4', D(1, 7, 4, 1), [-5, -1, 0, -1, 0, 0], 1800, ''), ('tree.d2.h4.n3', D(2, 4, 3, 1), [-4, -1, 0, -1, 0, 0], 2400, ''),
               ('tree.d3.h3.n3', D(3, 3, 3, 1), [-4, -1, 0, -1, 0, 0], 2400, '')]
